@@ -3,10 +3,19 @@
 
 use crate::credentials::{Credentials, KeyId};
 use bitvec::BitArr;
+#[cfg(all(test, aws_s2n_quic_verif_loom))]
+use ::loom::sync::{
+    atomic::{AtomicU64, Ordering},
+    Mutex,
+};
+#[cfg(not(all(test, aws_s2n_quic_verif_loom)))]
 use std::sync::{
     atomic::{AtomicU64, Ordering},
     Mutex,
 };
+
+#[cfg(all(test, aws_s2n_quic_verif_loom))]
+impl super::map::SizeOf for AtomicU64 {}
 
 const WINDOW: usize = 896;
 
@@ -158,3 +167,7 @@ impl Default for State {
 
 #[cfg(test)]
 mod tests;
+
+#[cfg(all(test, aws_s2n_quic_verif, aws_s2n_quic_verif_loom))]
+#[path = "/verif/engines/loommc/dc_secret.rs"]
+mod verif_loommc;
